@@ -299,7 +299,8 @@ func genC15(t *rapid.T) C15Script {
 				sc.Spelling[i] = 4
 			}
 		default:
-			sc.Spelling[i] = rapid.SampledFrom([]int{0, 0, 1, 1, 2, 3, 4, 5}).Draw(t, "sp")
+			// bit 1 and bit 2 together: a dash and a blank next to each other
+			sc.Spelling[i] = rapid.SampledFrom([]int{0, 0, 1, 1, 2, 3, 4, 5, 6, 7}).Draw(t, "sp")
 		}
 	}
 	return sc
